@@ -261,7 +261,7 @@ def replay(case):
     label = case["label"]
     if case["desc"][0] == "recalias":
         vs = run_recursive((tuple(case["desc"]), case["tier"])).violations
-        return [v for v in vs if core.jsonable(v["case"]["label"]) == label]
+        return [v for v in vs if tuple(v["case"]["label"]) == tuple(label)]
     res = run_case((core.detuple(case["desc"]), case["tier"]) + (("nt_as_dict",) if case.get("cfg") else ()),
                    only=(case["entry"], core.detuple(label)) if label is not None else None)
     return res.violations
